@@ -46,11 +46,15 @@ class _StubSpa:
     pass
 
 
+_SHELL = {}
+
+
 def write_snapshot(name, block, pack, confid, rev, rel, en, co, cfgv, logv, pack_type=10):
     from geckolib.utils.shell import GeckoShell
-
-    class Stub:
-        version_strings = property(GeckoShell.version_strings.fget)
+    # ONE shell object lives across all snapshots of a run, as in a shell session that manages one spa
+    # after another (constructed without its interactive start-up)
+    if "shell" not in _SHELL:
+        _SHELL["shell"] = GeckoShell.__new__(GeckoShell)
     spa = _StubSpa()
     spa.struct = _StubSpa()
     spa.struct.status_block = block
@@ -63,10 +67,10 @@ def write_snapshot(name, block, pack, confid, rev, rel, en, co, cfgv, logv, pack
     spa.config_version = cfgv
     spa.log_version = logv
     spa.pack_type = pack_type
-    stub = Stub()
+    stub = _SHELL["shell"]
     stub.facade = _StubSpa()
     stub.facade.spa = spa
-    GeckoShell.do_snapshot(stub, name)
+    stub.do_snapshot(name)
 
 
 def snap_rec(s):
